@@ -37,11 +37,24 @@ pub fn outside_distance(id: u64, lon: f64, lat: f64) -> f64 {
         Ok(s) => s,
         Err(_) => return f64::NAN,
     };
-    if shape.contains_point(p) > 0.0 {
-        return 0.0;
-    }
     let v = shape.get_vertices_vec();
     let n = v.len();
+    // inside test of our own (the library's predicate is what is being judged): the cells are convex, so the
+    // point is inside iff it is on the inner side of every edge, the inner side being given by the winding
+    let mut area2 = 0.0;
+    for i in 0..n {
+        let (a, b) = (v[i], v[(i + 1) % n]);
+        // relative to the first vertex: at deep resolutions the absolute coordinates would cancel to noise
+        area2 += (a.x() - v[0].x()) * (b.y() - v[0].y()) - (b.x() - v[0].x()) * (a.y() - v[0].y());
+    }
+    let sgn = if area2 >= 0.0 { 1.0 } else { -1.0 };
+    let inside = (0..n).all(|i| {
+        let (a, b) = (v[i], v[(i + 1) % n]);
+        sgn * ((b.x() - a.x()) * (p.y() - a.y()) - (b.y() - a.y()) * (p.x() - a.x())) >= 0.0
+    });
+    if inside {
+        return 0.0;
+    }
     let mut best = f64::INFINITY;
     for i in 0..n {
         let (a, b) = (v[i], v[(i + 1) % n]);
@@ -116,6 +129,22 @@ pub fn search_c01(rng: &mut Rng, thorough: bool) -> SearchResult {
             }
         }
     }
+    // corpus: points whose lookup is decided by the k-th probe of the neighbourhood search (golden table 3)
+    if let Ok(g) = std::fs::read_to_string("/verif/golden/golden_v062_probes.txt") {
+        let f = |h: &str| f64::from_bits(u64::from_str_radix(h, 16).unwrap());
+        for l in g.lines().filter(|l| l.starts_with('P')) {
+            let w: Vec<&str> = l.split_whitespace().collect();
+            let (lon, lat, res) = (f(w[1]), f(w[2]), w[3].parse::<i32>().unwrap());
+            r.evaluations += 1;
+            r.count("probe_decided_corpus");
+            if let Ok(Ok(id)) = std::panic::catch_unwind(|| lonlat_to_cell(LonLat::new(lon, lat), res)) {
+                let d = outside_distance(id, lon, lat);
+                if !(d < BAND) {
+                    r.viol("lookup:contain", format!("lonlat_to_cell(({}, {}), {}) = {:x} does not contain the point: distance to the cell {:e} (point whose lookup needs a late probe)", lon, lat, res, id, d));
+                }
+            }
+        }
+    }
     r.sample(format!("lonlat_to_cell((12.5, 45.25), 9) = {:x}", lonlat_to_cell(LonLat::new(12.5, 45.25), 9).unwrap()));
     let _ = (cell_to_boundary as fn(u64, Option<CellToBoundaryOptions>) -> _, cell_to_lonlat as fn(u64) -> _, random_cell as fn(&mut Rng, i32) -> u64, unit as fn(LonLat) -> [f64; 3], angle as fn([f64; 3], [f64; 3]) -> f64);
     r
@@ -125,9 +154,10 @@ pub fn search_c01(rng: &mut Rng, thorough: bool) -> SearchResult {
 
 pub fn search_c06(_rng: &mut Rng, thorough: bool) -> SearchResult {
     let mut r = SearchResult::default();
-    r.rule = "every row of the two frozen reference tables (generated once from the pinned release v0.6.2: every face x quintant x resolution 0..29 with boundary/random curve positions, uniform points; and 36000 points at face seams incl. edge midpoints, dodecahedron vertices, face centres, symmetry lines): lookups whose reference answer contained the point and was stable under a 2e-9 degree perturbation must return the same ID; reported centres and corners must be the same physical points within 1e-9 degrees (rows within 0.1 degree of a pole: 2e-6 degrees, because the reference release itself lost up to 1e-8 rad there, fixed defect D12). non-trivial = distinct table rows".into();
+    r.rule = "every row of the two frozen reference tables (generated once from the pinned release v0.6.2: every face x quintant x resolution 0..29 with boundary/random curve positions, uniform points; 36000 points at face seams incl. edge midpoints, dodecahedron vertices, face centres, symmetry lines; and points, mined from 3.2e8 candidates hugging cell edges and vertices, whose lookup is decided by the k-th probe of the neighbourhood search for every k that occurs): lookups whose reference answer contained the point and was stable under a 2e-9 degree perturbation must return the same ID; reported centres and corners must be the same physical points within 1e-9 degrees (rows within 0.1 degree of a pole: 2e-6 degrees, because the reference release itself lost up to 1e-8 rad there, fixed defect D12). non-trivial = distinct table rows".into();
     let g = std::fs::read_to_string("/verif/golden/golden_v062.txt").expect("golden table")
-        + &std::fs::read_to_string("/verif/golden/golden_v062_seams.txt").expect("golden table 2");
+        + &std::fs::read_to_string("/verif/golden/golden_v062_seams.txt").expect("golden table 2")
+        + &std::fs::read_to_string("/verif/golden/golden_v062_probes.txt").expect("golden table 3");
     let f = |h: &str| f64::from_bits(u64::from_str_radix(h, 16).unwrap());
     let step = if thorough { 1 } else { 1 };
     for (k, l) in g.lines().filter(|l| !l.starts_with('#')).enumerate() {
@@ -271,7 +301,7 @@ pub fn search_c03(rng: &mut Rng, thorough: bool) -> SearchResult {
             r.nontrivial += 1;
             // strictly inside two cells: each must contain it with a margin for a violation
             if strict.len() > 1 {
-                let deep: Vec<&u64> = strict.iter().filter(|&&c| inside_margin(c, lon, lat) > BAND).collect();
+                let deep: Vec<&u64> = strict.iter().filter(|&&c| claimed_margin(c, lon, lat) > BAND).collect();
                 if deep.len() > 1 {
                     r.viol("overlap", format!("point ({}, {}) lies strictly inside {} cells of resolution {}: {:x?}", lon, lat, deep.len(), res, deep));
                 }
@@ -298,7 +328,7 @@ pub fn search_c03(rng: &mut Rng, thorough: bool) -> SearchResult {
                 }
             }
         }
-        let deep: Vec<u64> = cands.iter().copied().filter(|&c| contains(c, lon, lat) > 0.0 && inside_margin(c, lon, lat) > BAND).collect();
+        let deep: Vec<u64> = cands.iter().copied().filter(|&c| contains(c, lon, lat) > 0.0 && claimed_margin(c, lon, lat) > BAND).collect();
         let any: usize = cands.iter().filter(|&&c| outside_distance(c, lon, lat) < BAND).count();
         r.evaluations += 1;
         r.nontrivial += 1;
@@ -331,9 +361,56 @@ pub fn inside_margin(id: u64, lon: f64, lat: f64) -> f64 {
         Ok(s) => s,
         Err(_) => return 0.0,
     };
-    if !(shape.contains_point(p) > 0.0) {
+    // independent of the library's own predicate: signed distance to every edge line, inner side by the winding
+    let v = shape.get_vertices_vec();
+    let n = v.len();
+    let mut area2 = 0.0;
+    for i in 0..n {
+        let (a, b) = (v[i], v[(i + 1) % n]);
+        // relative to the first vertex: at deep resolutions the absolute coordinates would cancel to noise
+        area2 += (a.x() - v[0].x()) * (b.y() - v[0].y()) - (b.x() - v[0].x()) * (a.y() - v[0].y());
+    }
+    let sgn = if area2 >= 0.0 { 1.0 } else { -1.0 };
+    let mut best = f64::INFINITY;
+    for i in 0..n {
+        let (a, b) = (v[i], v[(i + 1) % n]);
+        let (ex, ey) = (b.x() - a.x(), b.y() - a.y());
+        let (px, py) = (p.x() - a.x(), p.y() - a.y());
+        let l = (ex * ex + ey * ey).sqrt();
+        if l > 0.0 {
+            best = best.min(sgn * (ex * py - ey * px) / l);
+        }
+    }
+    if best > 0.0 && best.is_finite() {
+        best
+    } else {
+        0.0
+    }
+}
+
+/// For C03 ("no point strictly inside two cells", where "inside" is what the library's containment predicate says):
+/// the cell claims the point (library containment value > 0) and the point is farther than the returned margin from
+/// every edge line, so the claim is not a rounding artefact of a point on an edge.
+pub fn claimed_margin(id: u64, lon: f64, lat: f64) -> f64 {
+    use a5::core::cell::get_pentagon;
+    use a5::core::coordinate_transforms::from_lon_lat;
+    use a5::projections::dodecahedron::DodecahedronProjection;
+    if !(contains(id, lon, lat) > 0.0) {
         return 0.0;
     }
+    let c = match deserialize(id) {
+        Ok(c) => c,
+        Err(_) => return 0.0,
+    };
+    let d = DodecahedronProjection::get_thread_local();
+    let p = match d.forward(from_lon_lat(LonLat::new(lon, lat)), c.origin_id) {
+        Ok(p) => p,
+        Err(_) => return 0.0,
+    };
+    let shape = match get_pentagon(&c) {
+        Ok(s) => s,
+        Err(_) => return 0.0,
+    };
     let v = shape.get_vertices_vec();
     let n = v.len();
     let mut best = f64::INFINITY;
